@@ -125,6 +125,11 @@ pub enum Garbage {
     BadSpec,
     /// header whose `length` disagrees with 48 + query + body
     BadLength,
+    /// a correctly framed SUCCESS response (valid header, the request's id, ec 0, JSON body format) whose JSON
+    /// document ends early: the node did reply, the reply just cannot be decoded
+    TruncatedJson,
+    /// the same with a zero-length body
+    EmptyJson,
 }
 
 impl Garbage {
@@ -132,7 +137,16 @@ impl Garbage {
         match self {
             Garbage::BadSpec => "bad-spec",
             Garbage::BadLength => "bad-length",
+            Garbage::TruncatedJson => "truncated-json-body",
+            Garbage::EmptyJson => "empty-json-body",
         }
+    }
+    pub fn parse(s: &str) -> Option<Garbage> {
+        [Garbage::BadSpec, Garbage::BadLength, Garbage::TruncatedJson, Garbage::EmptyJson].into_iter().find(|g| g.name() == s)
+    }
+    /// The "malformed reply" is a well-formed response frame (only its body does not decode).
+    pub fn is_reply_frame(self) -> bool {
+        matches!(self, Garbage::TruncatedJson | Garbage::EmptyJson)
     }
 }
 
@@ -150,6 +164,8 @@ pub enum Realized {
     Silent,
     /// request read, garbage sent
     Garbage,
+    /// request read, a well-formed success response sent whose JSON body cannot be decoded
+    ReplyUndecodable,
     /// request read, error response sent
     ReplyErr { code: u32 },
     /// request read, normal response sent
@@ -502,6 +518,7 @@ impl Shared {
             Out::Refused => Realized::DownReset,
             Out::AcceptClose => Realized::Reset,
             Out::Silent => Realized::Silent,
+            Out::Malformed if self.garbage.is_reply_frame() => Realized::ReplyUndecodable,
             Out::Malformed => Realized::Garbage,
             Out::AppErr => Realized::ReplyErr {
                 code: match self.err_code {
@@ -649,6 +666,11 @@ fn handle_conn(sh: Arc<Shared>, conn: u64, mut s: TcpStream) {
                 let h = Hdr { version: 1, id: req.h.id, query_format: 1, body_format: 3, ec: code, ..Default::default() };
                 Some(Frame::new(h, &req.query, &body).to_bytes())
             }
+            Realized::ReplyUndecodable => {
+                let body: &[u8] = if sh.garbage == Garbage::EmptyJson { b"" } else { br#"{"status": "ok", "items": [1, 2"# };
+                let h = Hdr { version: 1, id: req.h.id, query_format: 1, body_format: 2, ..Default::default() };
+                Some(Frame::new(h, &req.query, body).to_bytes())
+            }
             Realized::Garbage => {
                 let body = b"{}".to_vec();
                 let h = Hdr { version: 1, id: req.h.id, query_format: 1, body_format: 2, ..Default::default() };
@@ -656,6 +678,7 @@ fn handle_conn(sh: Arc<Shared>, conn: u64, mut s: TcpStream) {
                 match sh.garbage {
                     Garbage::BadSpec => f.h.spec = 0x0715,
                     Garbage::BadLength => f.h.length += 7,
+                    Garbage::TruncatedJson | Garbage::EmptyJson => unreachable!(),
                 }
                 Some(f.to_bytes())
             }
